@@ -142,7 +142,7 @@ func permuteKeys(r *rand.Rand, c *cfg.Config) string {
 
 func checkC08(c *Ctx) error {
 	cfgN, runs, perms := c.Pick(48, 420), c.Pick(16, 60), c.Pick(4, 8)
-	c.Rule = fmt.Sprintf("%d configurations (half valid, half invalid with >=6 simultaneous defects per class; 6-8 entries in every mapping the tool ranges over: aliases incl. prefix-related names, functions, parameters, services, fields, files matched by several patterns) x %d fresh processes each, every run in its own working directory with relative paths and a perturbed environment (HOME/GOPATH/GOMODCACHE/GOFLAGS/LANG/TZ/TERM/NO_COLOR unset or garbage, unrelated APP_* variables, PATH with and without a go command, parent directory with and without .go files of the same package) — sha256 of the -o file and of stdout must be constant per configuration; plus %d key permutations of every mapping of each valid configuration — the -o file must not change. A canary program built with the same toolchain shows that map iteration order really varies between these processes. distinct = distinct configuration; non-trivial = every ranged mapping has >=6 entries", cfgN, runs, perms)
+	c.Rule = fmt.Sprintf("%d configurations (half valid, half invalid with >=6 simultaneous defects per class; 6-8 entries in every mapping the tool ranges over: aliases incl. prefix-related names, functions, parameters, services, fields, files matched by several patterns) x %d fresh processes each, every run in its own working directory with relative paths, a perturbed environment and different previous content at the output path (none, longer, shorter) (HOME/GOPATH/GOMODCACHE/GOFLAGS/LANG/TZ/TERM/NO_COLOR unset or garbage, unrelated APP_* variables, PATH with and without a go command, parent directory with and without .go files of the same package) — sha256 of the -o file and of stdout must be constant per configuration; plus %d key permutations of every mapping of each valid configuration — the -o file must not change. A canary program built with the same toolchain shows that map iteration order really varies between these processes. distinct = distinct configuration; non-trivial = every ranged mapping has >=6 entries", cfgN, runs, perms)
 	c.Assumptions = []string{"the schedule explored is the runtime's per-range map randomisation: detection is probabilistic (miss probability per 6-entry map and 16 runs < 1e-9), silence on a correct tree is certain", "stdout is compared with relative -i/-o arguments, since the report echoes them"}
 	w := c.W
 	if _, err := NewLabOnlyMod(c); err != nil {
@@ -267,10 +267,21 @@ func checkC08(c *Ctx) error {
 			args = append(args, "-i", p)
 		}
 		args = append(args, "-o", "out.go")
+		// what is already at the output path is not an input either: nothing, a much longer file, a shorter one, a read-only one
+		switch j.k % 5 {
+		case 1:
+			_ = work.WriteFile(filepath.Join(dir, "out.go"), []byte("package old\n"+strings.Repeat("// previously generated, much longer than anything this run writes\n", 4000)))
+		case 2:
+			_ = work.WriteFile(filepath.Join(dir, "out.go"), []byte("package old\n"))
+		case 3:
+			_ = work.WriteFile(filepath.Join(dir, "out.go"), []byte("package old\n"+strings.Repeat("var _ = 0\n", 3000)))
+			_ = os.Chmod(filepath.Join(dir, "out.go"), 0o600)
+		}
 		bin := bins[j.k%len(bins)]
 		res := work.Run(bin, dir, envFor(j.k, dir), 120*time.Second, nil, args...)
 		o := obs{exit: res.Exit, stdout: res.Stdout}
-		if b, err := os.ReadFile(filepath.Join(dir, "out.go")); err == nil {
+		if b, err := os.ReadFile(filepath.Join(dir, "out.go")); err == nil && res.Exit == 0 {
+			// a failing run generates nothing (what it leaves at the path is C10's subject)
 			o.out = string(b)
 		}
 		o.rep = res.Stdout + "\n--stderr--\n" + res.Stderr + fmt.Sprintf("\n--exit %d", res.Exit)
